@@ -66,12 +66,19 @@ def build(case):
             Y = rng.standard_normal((len(el), len(el)))
             G = Y - Y.T
             B[np.ix_(el, el)] += case["gyro"] * np.abs(P).max() * G / max(np.abs(G).max(), 1e-300)
+    fb = None
+    if case.get("feedback") and case["form"] == "nonprop" and rb and el and not case.get("rb_given") \
+            and not case.get("pre_eig") and not any(md["reg"] == "rbd" for md in modes):
+        # velocity feedback into a free coordinate: a zero-stiffness DOF whose damping COLUMN is zero while its ROW is
+        # not.  By the documented rule (stiffness and damping rows AND columns below 0.005) it is not a rigid-body mode
+        fb = (rb[0], el[0])
+        B[fb[0], fb[1]] = 0.5 * np.abs(B).max() + 0.1
     nf = len(case["freq"])
     F = rng.integers(-4, 5, (n, nf)).astype(float)
     if case.get("cforce"):
         F = F + 1j * rng.integers(-4, 5, (n, nf))
     F = F * float(case.get("fscale", 1.0))         # any units: the response is linear in the force
-    return dict(n=n, m=m, b=b, k=k, B=B, rb=rb, rf=rf, el=el, F=F)
+    return dict(n=n, m=m, b=b, k=k, B=B, rb=rb, rf=rf, el=el, F=F, feedback=fb)
 
 
 def reference(S, freq, incrb, rf_disp_only, direct_rb=False):
@@ -262,6 +269,27 @@ def oracle(case, R):
     tsu = ode.SolveUnc(M_in, B_in, K_in, **kw) if hstep is None else ode.SolveUnc(M_in, B_in, K_in, hstep, **kw)
     if case.get("gyro") and form in ("nonprop", "physical") and len(S["el"]) >= 2:
         R.label("damping:nonsymmetric")
+    if S.get("feedback") and form == "nonprop" and not case.get("rb_given") and not case.get("pre_eig"):
+        # only the classification is checked here (the response of such a system has a double zero eigenvalue:
+        # outside the domain of the accuracy checks below)
+        Kd = np.diag(K_in) if np.ndim(K_in) == 1 else np.asarray(K_in)
+        Bd = np.diag(B_in) if np.ndim(B_in) == 1 else np.asarray(B_in)
+        nonrf = [d_ for d_ in range(n) if d_ not in (rf_list or [])]
+        ix_ = np.ix_(nonrf, nonrf)
+        Kn, Bn = np.abs(Kd[ix_]), np.abs(Bd[ix_])
+        want_rb = [nonrf[q_] for q_ in range(len(nonrf))
+                   if Kn[q_].max() < 0.005 and Kn[:, q_].max() < 0.005 and Bn[q_].max() < 0.005 and Bn[:, q_].max() < 0.005]
+        import warnings
+        with warnings.catch_warnings():
+            warnings.simplefilter("ignore")
+            for nm_, obj_ in (("SolveUnc", ode.SolveUnc(M_in, B_in, K_in, rf=rf_in)),
+                              ("FreqDirect", ode.FreqDirect(M_in, B_in, K_in, rf=rf_in))):
+                got_rb = sorted(np.arange(n)[obj_.rb].tolist())
+                R.check(got_rb == sorted(want_rb), f"{nm_}_automatic_rigid_body_set",
+                        f"detected {got_rb}, documented rule gives {sorted(want_rb)} (feedback DOF {S['feedback'][0]})")
+        R.label("feedback:classification_only")
+        R.nontrivial(True)
+        return
     R.label("mass:int_dtype" if case.pop("_mass_label", "") == "int" else "mass:float")
     R.label("h=None" if hstep is None else "h_given")
     R.label("freq:two_sided" if np.any(freq < 0) else "freq:nonneg")
@@ -488,6 +516,7 @@ def freq_cases(draw, form, psd=False):
     case["fscale"] = draw(st.sampled_from([1.0, 1.0, 1.0, 1e-12, 2.0 ** -30, 1e10]))
     case["mint"] = draw(st.booleans())
     case["gyro"] = draw(st.sampled_from([0.0, 0.0, 0.5, 2.0]))
+    case["feedback"] = form == "nonprop" and draw(st.integers(0, 2)) == 0
     if case["mint"]:
         for md in modes:
             if md["m"] == 0.5:
